@@ -261,6 +261,9 @@ func c17Run(c *sink, cs *c17Case) {
 		c.Fail("oracle", "C17:atomic:followup", "state after crash + follow-up is not explained by any order of the operations: "+why, cs)
 		return
 	}
+	for k := range r.TraceCounts() {
+		c.Stat("runs-with:" + k)
+	}
 	// ---- the model
 	if diff, req := c.Compare(r); diff != "" {
 		c.Fail("correspondence", "C17:model:"+strings.SplitN(diff, "[", 2)[0], "model and code disagree: "+diff, map[string]any{"case": cs, "model_request": req})
